@@ -41,6 +41,115 @@ class GetOnly:
         return self._d.get(k, default)
 
 
+class Scope(dict):
+    """A scope with no names of its own (so it is false in a boolean context) that asks its
+    parent -- a mapping like any other as far as get() goes."""
+
+    def __init__(self, parent):
+        dict.__init__(self)
+        self._parent = parent
+
+    def get(self, k, default=None):
+        return self._parent.get(k, default)
+
+
+import collections.abc        # noqa: E402
+
+
+class Lazy(collections.abc.Mapping):
+    """Values computed on demand, nothing stored: len() == 0, get() answers."""
+
+    def __init__(self, d):
+        self._d = d
+
+    def __getitem__(self, k):
+        return self._d[k]
+
+    def __iter__(self):
+        return iter(())
+
+    def __len__(self):
+        return 0
+
+
+class _Cycle(Exception):
+    pass
+
+
+def check_nested(s, raw, env, env_names):
+    """A mapping that expands the definitions it holds with substitute() itself, from inside the
+    get() that the outer substitute() calls.  -> (sig, detail) or None"""
+    ZConfig, S = _import()
+
+    class Ref:
+        depth = 0
+
+        def get(self, n, default=None):
+            if n not in raw:
+                return default
+            Ref.depth += 1
+            try:
+                if Ref.depth > 8:
+                    raise _Cycle()
+                return model.ref_subst(raw[n], self, env)
+            finally:
+                Ref.depth -= 1
+
+    try:
+        want = ("ok", model.ref_subst(s, Ref(), env))
+    except (model.SubstSyntax, model.SubstMissing):
+        want = ("error", None)
+    except (model.Unspecified, _Cycle):
+        return None
+    names = set(env_names)
+    for text in [s] + list(raw.values()):
+        names.update(referenced_anywhere(text)[1])
+    if names:
+        _set_env(env, sorted(names))
+
+    class Real:
+        def get(self, n, default=None):
+            if n not in raw:
+                return default
+            return S.substitute(raw[n], self)
+    try:
+        got = ("ok", S.substitute(s, Real()))
+    except ZConfig.SubstitutionReplacementError as e:
+        got = ("missing", e)
+    except ZConfig.SubstitutionSyntaxError as e:
+        got = ("syntax", e)
+    except Exception as e:  # noqa
+        return ("subst:nested:internal:%s" % type(e).__name__, repr(e))
+    if want[0] == "ok":
+        if got[0] != "ok":
+            return ("subst:nested:rejected-but-valid", "raised %r, want %r" % (got[1], want[1]))
+        if got[1] != want[1]:
+            return ("subst:nested:wrong-result", "got %r want %r" % (got[1], want[1]))
+        return None
+    if got[0] == "ok":
+        return ("subst:nested:accepted-but-invalid", "returned %r" % (got[1],))
+    if got[0] == "missing":
+        e = got[1]
+        texts = [s] + list(raw.values())
+        if e.source not in texts:
+            return ("subst:nested:error-source", "source %r is none of the texts involved %r" % (e.source, texts))
+        d_, e_ = referenced_anywhere(e.source)
+        if str(e.name).lower() not in [x.lower() for x in d_ + e_]:
+            return ("subst:nested:error-source", "the error names %r but its source %r holds no such reference" % (e.name, e.source))
+    return None
+
+
+def referenced_anywhere(s):
+    """like referenced(), but does not stop at a malformed construct"""
+    defs, envs = [], []
+    for k in range(len(s)):
+        if s[k] == "$":
+            d, e = referenced(s[k:])
+            defs.extend(d[:1])
+            envs.extend(e[:1])
+    return defs, envs
+
+
 _mods = []
 
 
@@ -78,6 +187,8 @@ def _restore_env():
 def check_subst(s, mapping, env, env_names, getonly=False):
     """-> (sig, detail) or None.  mapping/env as handed to the real code."""
     ZConfig, S = _import()
+    if getonly == "nested":
+        return check_nested(s, mapping, env, env_names)
     try:
         problems = model.subst_error_count(s, mapping, env)
         try:
@@ -91,7 +202,7 @@ def check_subst(s, mapping, env, env_names, getonly=False):
         problems = []
     if env_names:
         _set_env(env, env_names)
-    m = GetOnly(mapping) if getonly else dict(mapping)
+    m = {True: GetOnly, "scope": Scope, "lazy": Lazy}.get(getonly, dict)(mapping)
     before = dict(mapping)
     try:
         got = ("ok", S.substitute(s, m))
@@ -290,6 +401,14 @@ def _run_string(res, s):
         r = check_subst(s, mapping, env, env_names)
         if r:
             res.fail(r[0], case_of(s, mapping, env, env_names), r[1])
+        if nt and (len(s) * 7 + len(mapping)) % 16 == 0:
+            # the same through mappings of other kinds
+            for kind_ in ("scope", "lazy", "nested"):
+                res.evaluations += 1
+                res.count("mapping-kind:" + kind_)
+                r = check_subst(s, mapping, env, env_names, kind_)
+                if r:
+                    res.fail(r[0], case_of(s, mapping, env, env_names, kind_), r[1])
         if first and nt and env_names and mapping:
             res.sample(case_of(s, mapping, env, env_names), limit=1)
         first = False
@@ -408,7 +527,8 @@ def _run_random(res, spec):
         extra = draw(st.dictionaries(name.map(str.lower), values, max_size=2))
         for k, v in extra.items():
             mapping.setdefault(k, v)
-        return case_of(s, mapping, env, sorted(set(env_names)), draw(st.booleans()))
+        return case_of(s, mapping, env, sorted(set(env_names)),
+                       draw(st.sampled_from([False, True, "scope", "lazy", "nested", "nested"])))
 
     @hypothesis.seed(spec["seed"])
     @settings(max_examples=spec["n"], database=None, deadline=None, derandomize=False,
